@@ -87,6 +87,13 @@ def build(kind, value, opt):
         with open(p, 'wb') as f:
             f.write(plistlib.dumps(value))
         return gplist.build_tree(p, options)
+    if kind == 'yaml':
+        import yaml
+        from graphtage import yaml as gyaml
+        p = os.path.join(tmpdir(), 'case.yml')
+        with open(p, 'w', encoding='utf-8') as f:
+            f.write(yaml.safe_dump(value, allow_unicode=True))
+        return gyaml.build_tree(p, options)
     if kind == 'pyobj':
         from graphtage import pydiff
         return pydiff.build_tree(pyobj(value), options)
@@ -96,7 +103,7 @@ def build(kind, value, opt):
 def expected_plain(kind, value):
     """The plain value the tree stands for, computed from the case description only."""
     from mc.gen import Bag
-    if kind == 'json' or kind == 'string' or kind == 'plist':
+    if kind == 'json' or kind == 'string' or kind == 'plist' or kind == 'yaml':
         return value
     if kind == 'pydict':
         return {k: v for k, v in value}
